@@ -446,13 +446,16 @@ def run_itemused(chk, fx, prefix="C03"):
 
 
 def run_records(chk, fx, prefix="C03"):
-    r = chk.rule(prefix + ".records", "a keyword handler of opm/input/eclipse/Schedule that walks the records of its keyword (for (record : handlerContext.keyword)) leaves that loop only by finishing it or by throwing: a record that does not apply is skipped with `continue` - a `return` or `break` would silently drop every later record of the keyword", floor=50)
+    r = chk.rule(prefix + ".records", "a keyword handler of opm/input/eclipse/Schedule that walks the records of a keyword (a range-for over handlerContext.keyword or over any DeckKeyword) leaves that loop only by finishing it or by throwing: a record that does not apply is skipped with `continue` - a `return` or `break` would silently drop every later record of the keyword", floor=50)
     from verif.tree import children as _ch
     for f in fx.fns:
         if not f.get("body") or not f["file"].startswith(core.REPO + "/opm/input/eclipse/Schedule/"):
             continue
         for lp in walk(f["body"]):
-            if not (lp["k"] == "ForRange" and show(strip(lp["range"])).endswith(".keyword")):
+            if lp["k"] != "ForRange":
+                continue
+            rng_ = strip(lp["range"])
+            if not (show(rng_).endswith(".keyword") or re.search(r"\bDeckKeyword\b", rng_.get("t") or "") or re.search(r"\bDeckRecord\b", (lp.get("var") or {}).get("t") or "")):
                 continue
             exits = []
 
